@@ -353,6 +353,48 @@ func (m *Module) Build(race bool) error {
 	return nil
 }
 
+// BuildOnly type-checks and compiles every generated package as it was written
+// (no driver file), recording per-package errors.
+func (m *Module) BuildOnly() error {
+	cmd := exec.Command("go", "build", "./...")
+	cmd.Dir = m.Root
+	cmd.Env = goEnv()
+	out, _ := cmd.CombinedOutput()
+	cur := ""
+	errs := map[string][]string{}
+	for _, l := range strings.Split(string(out), "\n") {
+		if strings.HasPrefix(l, "# scratch/") {
+			cur = strings.Fields(strings.TrimPrefix(l, "# scratch/"))[0]
+			continue
+		}
+		if l == "" {
+			continue
+		}
+		if cur != "" {
+			errs[cur] = append(errs[cur], l)
+		} else if i := strings.Index(l, "/"); i > 0 && strings.Contains(l, ".go:") {
+			errs[l[:i]] = append(errs[l[:i]], l)
+		} else {
+			errs["?"] = append(errs["?"], l)
+		}
+	}
+	if e, ok := errs["reg"]; ok {
+		return fmt.Errorf("driver runtime does not compile: %s", strings.Join(e, "\n"))
+	}
+	if e, ok := errs["?"]; ok && len(errs) == 1 {
+		return fmt.Errorf("go build: %s", strings.Join(e, "\n"))
+	}
+	for _, p := range m.Pkgs {
+		if e, ok := errs[p.Name]; ok && p.GenErr == "" && p.GenPanic == "" {
+			if len(e) > 6 {
+				e = e[:6]
+			}
+			p.BuildErr = strings.Join(e, "\n")
+		}
+	}
+	return nil
+}
+
 // Start launches the driver binary.
 func (m *Module) Start() error {
 	m.cmd = exec.Command(m.Bin)
